@@ -2521,6 +2521,14 @@ class SSHConnection(SSHPacketHandler, asyncio.Protocol):
             else:
                 begin_auth = False
 
+            # A new request supersedes any auth still in progress, so
+            # don't leave the old auth around to handle method-specific
+            # messages while the new request is being set up
+
+            if self._auth:
+                self._auth.cancel()
+                self._auth = None
+
             self.create_task(self._finish_userauth(begin_auth, method, packet))
 
     async def _finish_userauth(self, begin_auth: bool, method: bytes,
